@@ -930,5 +930,24 @@ theorem compact_spec (fl : CompactFlags) (F : Oracle) (cfg : CompactCfg) (sz : N
                             rw [h43, hold3 s (mem_removeIds.mp hs').1]
                           rw [h1, h2]
 
+/-! ### runs -/
+
+theorem storeInv_stepWith (fl : Flags) (F : Oracle) (s : Sys) (op : Op) (h : StoreInv s.w.store) :
+    StoreInv (stepWith fl F s op).w.store := by
+  cases op with
+  | push d => exact h
+  | flush sz =>
+    have := (flush_spec fl.restoreBuffer F sz s.w s.p h).1
+    simp only [stepWith]
+    split <;> rename_i heq <;> rw [heq] at this <;> exact this
+  | compact cfg sz => exact (compact_spec fl.compact F cfg sz s.w h).1
+
+theorem storeInv_nil : StoreInv ([] : Store) := Or.inl rfl
+
+/-- every store reachable by a workload from the empty store satisfies the invariant -/
+theorem storeInv_runWith (fl : Flags) (F : Oracle) (rid : Nat) (ops : List Op) :
+    StoreInv (runWith fl F (Sys.init [] rid) ops).w.store :=
+  TraceInv.run_inv (stepWith fl F) (fun s => StoreInv s.w.store) (storeInv_stepWith fl F) _ storeInv_nil ops
+
 end Stream
 end RedisVerif
